@@ -4,6 +4,7 @@ import (
 	"fmt"
 	"go/token"
 	"go/types"
+	"sort"
 	"strings"
 
 	"golang.org/x/tools/go/ssa"
@@ -13,7 +14,7 @@ import (
 
 func init() {
 	register(&Rule{ID: "R-STALE", Min: 2, Run: ruleStale,
-		Doc: "every float sample obtained from a storage iterator (At/PeekPrev) in execution/... reaches an emission (a success return, a promql.Point, an appended sample) only on the not-stale branch of a value.IsStaleNaN test of that very value"})
+		Doc: "every float sample obtained from a storage iterator (At/PeekPrev) in execution/... reaches an emission (a success return, a promql.Point, an appended sample) only on the not-stale branch of a value.IsStaleNaN test of that very value; a raw sample that an unexported helper hands back to its callers, or that is passed to a function of the execution packages, is followed there"})
 	register(&Rule{ID: "R-LOOKBACK", Min: 2, Run: ruleLookback,
 		Doc: "in each engine entry that takes *promql.QueryOpts and calls execution.New, the lookback argument depends on opts.LookbackDelta and on the engine-wide delta"})
 	register(&Rule{ID: "R-SHARD", Min: 2, Run: ruleShard,
@@ -30,9 +31,9 @@ func init() {
 		Doc: "every storage querier opened is closed by a defer placed right after the error check, Close is called nowhere else, and no querier/select is reachable from query creation"})
 
 	mutant(Mutant{Rule: "R-STALE", Name: "stale-check-only-on-lookback-path", File: "execution/scan/vector_selector.go",
-		Old: "\tif value.IsStaleNaN(v) {\n\t\treturn 0, 0, false, nil\n\t}\n\treturn t, v, true, nil", New: "\tif valueType == chunkenc.ValNone && value.IsStaleNaN(v) {\n\t\treturn 0, 0, false, nil\n\t}\n\treturn t, v, true, nil", Expect: "selectPoint"})
+		Old: "\tif value.IsStaleNaN(v) {\n\t\treturn 0, 0, false, nil\n\t}\n\treturn t, v, true, nil", New: "\tif valueType == chunkenc.ValNone && value.IsStaleNaN(v) {\n\t\treturn 0, 0, false, nil\n\t}\n\treturn t, v, true, nil", Expect: "instant-vector sample"})
 	mutant(Mutant{Rule: "R-STALE", Name: "sought-sample-unchecked", File: "execution/scan/matrix_selector.go",
-		Old: "if t == maxt && !value.IsStaleNaN(v) {", New: "if t == maxt {", Expect: "selectPoints"})
+		Old: "if t == maxt && !value.IsStaleNaN(v) {", New: "if t == maxt {", Expect: "range-vector sample"})
 	mutant(Mutant{Rule: "R-LOOKBACK", Name: "per-query-delta-ignored", File: "engine/engine.go",
 		Old: "exec, err := execution.New(lplan.Expr(), q, start, end, step, e.getLookbackDelta(opts))", New: "exec, err := execution.New(lplan.Expr(), q, start, end, step, e.lookbackDelta)", Expect: "NewRangeQuery"})
 	mutant(Mutant{Rule: "R-LOOKBACK", Name: "unset-per-query-delta-is-zero", File: "engine/engine.go",
@@ -54,56 +55,128 @@ func init() {
 		Old: "\tdefer querier.Close()\n", New: "", Expect: "loadSeries"})
 }
 
-// isIterAt reports whether c reads a sample from a storage iterator and returns the index of the float result.
-func isIterAt(c *ssa.CallCommon) (floatIdx int, ok bool) {
+// isIterAt reports whether c reads a sample from a storage iterator and returns the index of the float
+// result and the kind of selection the iterator serves.
+func isIterAt(c *ssa.CallCommon) (floatIdx int, kind string, ok bool) {
 	if c.IsInvoke() {
 		if core.InvokeOf(c, pkgChunkenc, "Iterator", "At") {
-			return 1, true
+			kind = "iterator"
+			if call, isCall := c.Value.(*ssa.Call); isCall && core.CalleeName(&call.Call) == "(*"+pkgStorage+".BufferedSeriesIterator).Buffer" {
+				kind = "range-vector"
+			}
+			return 1, kind, true
 		}
-		return 0, false
+		return 0, "", false
 	}
 	switch core.CalleeName(c) {
-	case "(*" + pkgStorage + ".MemoizedSeriesIterator).At", "(*" + pkgStorage + ".BufferedSeriesIterator).At":
-		return 1, true
-	case "(*" + pkgStorage + ".MemoizedSeriesIterator).PeekPrev", "(*" + pkgStorage + ".BufferedSeriesIterator).PeekBack":
-		return 1, true
+	case "(*" + pkgStorage + ".MemoizedSeriesIterator).At", "(*" + pkgStorage + ".MemoizedSeriesIterator).PeekPrev":
+		return 1, "instant-vector", true
+	case "(*" + pkgStorage + ".BufferedSeriesIterator).At", "(*" + pkgStorage + ".BufferedSeriesIterator).PeekBack":
+		return 1, "range-vector", true
 	}
-	return 0, false
+	return 0, "", false
 }
 
 func ruleStale(p *core.Program) []core.Obligation {
+	// The rule follows a raw sample out of package-local helpers (an unexported function that hands the
+	// sample back to its callers: the callers' uses are checked) and into them (a raw sample passed as
+	// an argument: the helper's uses of the parameter are checked), to a fixpoint.
+	taken := addressTaken(p)
+	retTaint := map[*ssa.Function]map[int]string{}
+	paramTaint := map[*ssa.Function]map[*ssa.Parameter]string{}
+	var obs []core.Obligation
+	for round := 0; round < 8; round++ {
+		var changed bool
+		obs, changed = staleRound(p, taken, retTaint, paramTaint)
+		if !changed {
+			break
+		}
+	}
+	return obs
+}
+
+// addressTaken: functions used as values (not only called directly).
+func addressTaken(p *core.Program) map[*ssa.Function]bool {
+	out := map[*ssa.Function]bool{}
+	for _, fn := range p.Funcs {
+		core.EachInstr(fn, func(_ *ssa.BasicBlock, _ int, ins ssa.Instruction) {
+			cc := core.CallCommon(ins)
+			for _, op := range ins.Operands(nil) {
+				if op == nil || *op == nil {
+					continue
+				}
+				f, ok := (*op).(*ssa.Function)
+				if !ok {
+					continue
+				}
+				if cc != nil && cc.Value == f {
+					continue
+				}
+				out[f] = true
+			}
+		})
+	}
+	return out
+}
+
+func staleRound(p *core.Program, taken map[*ssa.Function]bool, retTaint map[*ssa.Function]map[int]string, paramTaint map[*ssa.Function]map[*ssa.Parameter]string) ([]core.Obligation, bool) {
 	const rule = "R-STALE"
 	var obs []core.Obligation
+	changed := false
+	isHelper := func(fn *ssa.Function) bool {
+		return fn.Parent() == nil && !token.IsExported(fn.Name()) && !taken[fn] && len(p.CallSitesOf(fn)) > 0
+	}
 	for _, fn := range p.Funcs {
 		if !strings.HasPrefix(core.Rel(fn.Pkg.Pkg.Path()), "execution") {
 			continue
 		}
-		// sources: float results of iterator reads
-		sources := map[ssa.Value]bool{}
+		// sources: float results of iterator reads, raw samples handed back by helpers, raw samples received
+		sources := map[ssa.Value]string{}
 		core.EachInstr(fn, func(b *ssa.BasicBlock, i int, ins ssa.Instruction) {
 			call, ok := ins.(*ssa.Call)
 			if !ok {
 				return
 			}
-			idx, ok := isIterAt(&call.Call)
-			if !ok {
+			if idx, kind, ok := isIterAt(&call.Call); ok {
+				for _, r := range core.Referrers(call) {
+					if ex, ok := r.(*ssa.Extract); ok && ex.Index == idx {
+						sources[ex] = kind
+					}
+				}
 				return
 			}
-			for _, r := range core.Referrers(call) {
-				if ex, ok := r.(*ssa.Extract); ok && ex.Index == idx {
-					sources[ex] = true
+			if callee := call.Call.StaticCallee(); callee != nil && len(retTaint[callee]) > 0 {
+				if callee.Signature.Results().Len() == 1 {
+					sources[call] = retTaint[callee][0]
+					return
+				}
+				for _, r := range core.Referrers(call) {
+					if ex, ok := r.(*ssa.Extract); ok && retTaint[callee][ex.Index] != "" {
+						sources[ex] = retTaint[callee][ex.Index]
+					}
 				}
 			}
 		})
+		for prm, kind := range paramTaint[fn] {
+			sources[prm] = kind
+		}
 		if len(sources) == 0 {
 			continue
 		}
 		// value class: sources plus every phi fed by a member
 		class := map[ssa.Value]bool{}
 		var work []ssa.Value
-		for s := range sources {
+		kinds := map[string]bool{}
+		for s, k := range sources {
 			class[s] = true
+			kinds[k] = true
 			work = append(work, s)
+		}
+		kind := "iterator"
+		if len(kinds) == 1 {
+			for k := range kinds {
+				kind = k
+			}
 		}
 		for len(work) > 0 {
 			v := work[len(work)-1]
@@ -164,10 +237,17 @@ func ruleStale(p *core.Program) []core.Obligation {
 			return false
 		}
 		// sinks
-		n := 0
+		var members []ssa.Value
 		for v := range class {
+			members = append(members, v)
+		}
+		sort.Slice(members, func(i, j int) bool {
+			return members[i].Pos() < members[j].Pos() || members[i].Pos() == members[j].Pos() && members[i].Name() < members[j].Name()
+		})
+		for _, v := range members {
 			for _, r := range core.Referrers(v) {
 				var what string
+				handedOn := ""
 				switch x := r.(type) {
 				case *ssa.Return:
 					// a success return: some bool result is the constant true, or no bool result at all
@@ -181,6 +261,20 @@ func ruleStale(p *core.Program) []core.Obligation {
 						continue
 					}
 					what = "success return"
+					if isHelper(fn) && !guarded(v, r.Block()) {
+						for j, res := range core.RetResults(x) {
+							if res == v {
+								if retTaint[fn] == nil {
+									retTaint[fn] = map[int]string{}
+								}
+								if retTaint[fn][j] == "" {
+									retTaint[fn][j] = kind
+									changed = true
+								}
+							}
+						}
+						handedOn = "handed back to the callers of this package-local helper, whose uses of the result are checked"
+					}
 				case *ssa.Store:
 					if x.Val != v {
 						continue
@@ -195,6 +289,22 @@ func ruleStale(p *core.Program) []core.Obligation {
 						continue
 					}
 					what = "argument of " + strings.ReplaceAll(core.CalleeName(&x.Call), core.Module+"/", "")
+					if callee := x.Call.StaticCallee(); callee != nil && callee.Blocks != nil && p.InRepo(callee) && !guarded(v, r.Block()) &&
+						strings.HasPrefix(core.Rel(callee.Pkg.Pkg.Path()), "execution") {
+						for ai, a := range x.Call.Args {
+							if a == v && ai < len(callee.Params) {
+								prm := callee.Params[ai]
+								if paramTaint[callee] == nil {
+									paramTaint[callee] = map[*ssa.Parameter]string{}
+								}
+								if paramTaint[callee][prm] == "" {
+									paramTaint[callee][prm] = kind
+									changed = true
+								}
+								handedOn = "passed to a function of the execution packages, whose uses of the parameter are checked"
+							}
+						}
+					}
 				case *ssa.Phi, *ssa.DebugRef:
 					continue
 				case *ssa.BinOp:
@@ -202,18 +312,19 @@ func ruleStale(p *core.Program) []core.Obligation {
 				default:
 					what = fmt.Sprintf("%T", r)
 				}
-				n++
-				key := fmt.Sprintf("%s emits iterator sample via %s", core.FuncName(fn), what)
-				if guarded(v, r.Block()) {
+				key := fmt.Sprintf("%s emits %s sample via %s", core.FuncName(fn), kind, what)
+				switch {
+				case guarded(v, r.Block()):
 					obs = append(obs, core.Ob(rule, key, p.Pos(r.Pos()), core.FuncName(fn), core.Held, "dominated by the not-stale branch of IsStaleNaN on the same value"))
-				} else {
+				case handedOn != "":
+					obs = append(obs, core.Ob(rule, key, p.Pos(r.Pos()), core.FuncName(fn), core.Held, handedOn))
+				default:
 					obs = append(obs, core.Ob(rule, key, p.Pos(r.Pos()), core.FuncName(fn), core.Violated, "the sample can reach this emission without passing a staleness test: a staleness marker would be returned as a value"))
 				}
 			}
 		}
-		_ = n
 	}
-	return obs
+	return obs, changed
 }
 
 // fieldLoadsIn collects the (type.field) names loaded in the backward slice of v, following static
